@@ -31,6 +31,21 @@ BUILTIN_BASES = {
 }
 
 
+def _digit_guard(preds, a):
+    """'nonempty' when a predicate proves `a` a non-empty ASCII-decimal string, 'maybe-empty' for `<that> or not a`, else None"""
+    strict = (f"{a}.isdecimal()", f"{a}.isascii() and {a}.isdigit()", f"{a}.isdigit() and {a}.isascii()")
+    empties = (f"not {a}", f"{a} == ''", f"len({a}) == 0", f"not len({a})")
+    res = None
+    for p in preds:
+        if p in strict:
+            return "nonempty"
+        for st in strict:
+            for em in empties:
+                if p in (f"{st} or {em}", f"{em} or {st}"):
+                    res = "maybe-empty"
+    return res
+
+
 class Witness:
     def __init__(self, exc: str, where: str, what: str, path: List[str]):
         self.exc, self.where, self.what, self.path = exc, where, what, path
@@ -306,9 +321,11 @@ class EscapeAnalysis:
         if isinstance(arg, ast.Name):
             preds = self._guard_predicates(f, call, arg.id)
             a = arg.id
-            for p in preds:
-                if p in (f"{a}.isdecimal()", f"{a}.isascii() and {a}.isdigit()", f"{a}.isdigit() and {a}.isascii()"):
-                    return self._digits_bounded(f, call, arg) if base == 10 else (True, "")
+            dg = _digit_guard(preds, a)
+            if dg == "nonempty":
+                return self._digits_bounded(f, call, arg) if base == 10 else (True, "")
+            if dg == "maybe-empty":
+                return False, f"`{a}` can be the empty string (the guard lets '' through)"
             for p in preds:
                 if p == f"{a}.isdigit()" or f"{a}.isdigit()" in p:
                     return False, f"guarded only by {a}.isdigit(), which is true for characters int() rejects (e.g. superscript digits like '²')"
@@ -341,7 +358,7 @@ class EscapeAnalysis:
         if dv is not None and base == 10:
             a = dv[0]
             preds = self._guard_predicates(f, call, a)
-            if any(p in (f"{a}.isdecimal()", f"{a}.isascii() and {a}.isdigit()", f"{a}.isdigit() and {a}.isascii()") for p in preds):
+            if _digit_guard(preds, a) is not None:
                 if not dv[1]:
                     return False, f"argument `{norm(arg)}` can be the empty string"
                 return self._digits_bounded(f, call, arg)
